@@ -130,7 +130,7 @@ def s_setitem(b, t, adv_prob=0.45):
         # NumPy's own result for fancy / boolean-mask assignment from an OVERLAPPING source is an implementation artifact (not the
         # 'value is read first' semantics it guarantees for basic slices), so it cannot serve as the specification there
         return False
-    return b.emit({"k": "setitem", "tgt": t, "index": enc_index(ix), "value": val})
+    return b.emit({"k": "setitem", "tgt": t, "index": B.tensorize_index(b, enc_index(ix), 0.2), "value": val})
 
 
 def s_aug(b, t):
@@ -165,7 +165,7 @@ def s_uout(b, t):
     if rng.random() < 0.45:
         ms = B.bcast_variants(rng, tv.shape) if rng.random() < 0.5 else tv.shape
         m = np.array([rng.random() < 0.55 for _ in range(int(np.prod(ms, dtype=int)))], dtype=bool).reshape(ms)
-        kw["where"] = enc_arr(m)
+        kw["where"] = B.tensorize_index(b, enc_arr(m), 0.25)    # the mask sometimes as a (constant, boolean) tensor
     if rng.random() < 0.5:
         fn = rng.choice(UFUNC1_OUT)
         a, refs = value_for(b, tv.shape, "f", positive=fn in ("sqrt", "log"))
